@@ -178,6 +178,11 @@ func (c05) outage(sc core.Scenario, r *core.R) {
 		t3 := Tok("n")
 		nIn = Go(t3, func() (string, error) { return "", cl.NoteR(ctx, t3) }) // a notification through a retry-tagged field
 		uIn.Wait(500 * time.Millisecond)
+		// the untagged call that was in flight at the loss has been failed by now: the client is parked before
+		// its first redial, so this does not depend on the outage ending
+		if !cu.Wait(2 * time.Second) {
+			r.Violate("untagged-hang", "untagged call %s, in flight when the connection was lost (%s), has not been failed although the client has already begun to redial; it should not have to wait for the outage to end", hu, kind)
+		}
 	} else {
 		r.Inconclusive("client never started to redial within the grace period (kind %s)", kind)
 		// still continue to the recovery oracle below: this is itself the violation when it persists
